@@ -12,6 +12,7 @@ import MTVerif.Model.Render
 import MTVerif.Model.TdSize
 import MTVerif.Lemmas.EvalAnno
 import MTVerif.Lemmas.EvalTD
+import MTVerif.Lemmas.Provided
 namespace MT.C11
 open MT MT.Render
 
@@ -245,6 +246,20 @@ example : namesOk clashNS demoNm [["pkg", "utils"], ["typing"], ["utils"]] (.tup
 example : (evalE clashNS (stripE [["pkg", "utils"], ["typing"], ["utils"]] (renderE demoNm (.tuple [.cls 40, .cls 41])))).map
     (Ty.beq' · (.tuple [.cls 40, .cls 40])) = some true := by decide +kernel
 
+
+/-! ### "every name used anywhere in a stub is provided" -/
+
+/-- C11, self-containedness, dotted names: every dotted name the rendered annotation of `t` mentions is `None` / `Ellipsis`, a
+    `typing` name that `get_imports_for_annotation(t)` lists, or the dotted path of a class that is a builtin or whose module and
+    root name that import list contains (classes nested in classes are reached through their outermost class).  The import list of a
+    type with anonymous TypedDicts includes what their fields need (`td_fields_imported`). -/
+theorem every_name_imported (nm : Names) (hint : String) (t : Ty) :
+    ∀ ps ∈ namesE (renderT nm hint t), Provided nm (importsOf nm t) ps := names_provided nm hint t
+
+/-- … and quoted forward references: every one is the name of a class generated for the same type (no TypedDict being empty) -/
+theorem every_forward_reference_defined (nm : Names) (sm : Ty → List (List String)) (k : Nat) (hint : String) (t : Ty)
+    (h : t.tdOk k = true) : ∀ s ∈ refsE (renderT nm hint t), s ∈ (classesT nm sm hint t).map (·.name) :=
+  refs_generated nm sm k hint t h
 
 /-! ### non-vacuity of `rendered_denotes`, and the witness of its excluded case -/
 
